@@ -134,6 +134,19 @@ theorem error_changes_nothing (sch : Schema) (s : State) (ops : List Op) (h : (t
   · next s' hs => rw [hs] at h; exact absurd rfl h
   · rfl
 
+/-- **key-size boundary**: in every reachable state every indexed unique value fits bbolt's key
+    limit (a longer one is refused — `step_refines_spec` — and nothing changes) -/
+theorem indexed_values_fit (sch : Schema) (txs : List (List Op)) (id : Id) (e : Ent)
+    (h : (run sch txs).base.ents.lookup id = some e) :
+    (Spec.vName sch e).length ≤ maxKeySize ∧ (Spec.vAlias sch e).length ≤ maxKeySize :=
+  (inv_reachable sch txs).base.keysFit id e h
+
+/-- a write through either store whose one fault is an indexed unique value longer than bbolt's key
+    limit fails with bbolt's error (enum `other`) and changes nothing -/
+theorem oversize_rejected {sch : Schema} {s : State} {op : Op} (hi : Inv sch s) (hw : WouldOverflow sch s op) :
+    step sch s op = (s, .err .other) := by
+  simp [step, txStep, applyOps, stepRaw_overflow hi hw]
+
 /-- **refinement**: on a consistent state the engine model and the spec (entity table and child
     data only; refuse exactly the writes that would break a constraint of a registered index against
     the other entities) agree on every operation through either store, whatever the registration
@@ -175,14 +188,15 @@ example : Inv exSch exState := inv_reachable _ _
 /-- `WouldDuplicate` is satisfiable: b takes a's name, the patch naming the field by its caller-side name -/
 example : WouldDuplicate exSch exState (.update .parent [98] ⟨[120], none, []⟩ [] (some [[100]])) :=
   ⟨[98], ⟨[120], none, [[114]]⟩, by decide,
-    Or.inl ⟨by decide, [97], ⟨[120], some [121], [[114], [115]]⟩, by decide, by decide, by decide⟩, by decide, by decide⟩
+    Or.inl ⟨by decide, [97], ⟨[120], some [121], [[114], [115]]⟩, by decide, by decide, by decide⟩, by decide, by decide,
+    by decide, by decide⟩
 example : (step exSch exState (.update .parent [98] ⟨[120], none, []⟩ [] (some [[100]]))).2 = .err .dup := by decide
 /-- … whereas the symbol name or the stored key in the checker selects nothing -/
 example : (step exSch exState (.update .parent [98] ⟨[120], none, []⟩ [] (some [[110], [107]]))).1.base.ents.lookup [98]
     = some ⟨[121], none, [[114]]⟩ := by decide
 /-- `WouldBeEmpty` is satisfiable, also for a child-store create over the existing plain parent b -/
 example : WouldBeEmpty exSch exState (.create .child [98] ⟨[], none, []⟩ [116]) :=
-  ⟨[98], ⟨[], none, []⟩, by decide, rfl, rfl, fun h => h.1 (by decide), by decide⟩
+  ⟨[98], ⟨[], none, []⟩, by decide, rfl, rfl, fun h => h.1 (by decide), by decide, by decide⟩
 example : (step exSch exState (.create .child [98] ⟨[], none, []⟩ [116])).2 = .err .nullNotAllowed := by decide
 /-- two faults at once: the registration order decides (roles before name: `other`; the plain order: `null`) -/
 example : (step exSch exState (.create .parent [99] ⟨[], none, [[]]⟩ [])).2 = .err .other ∧
